@@ -12,10 +12,18 @@ def gen_repo_history(rng, n):
     ops = []
     day = {k: rng.randrange(0, 50) for k in REPO_NAMES}
     backfill = rng.random() < 0.4      # histories in which older days are appended after newer ones
+    touched = set()
     for _ in range(n):
         r = rng.random()
         name = rng.choice(REPO_NAMES)
-        if r < 0.35:
+        if r < 0.05 and name not in touched:
+            ops.append('z:%s' % name)          # the asset exists without content (a zero-byte file put there from outside)
+            touched.add(name)
+        elif r < 0.12:
+            other = rng.choice([x for x in REPO_NAMES if x != name])
+            ops.append('c:%s:%s' % (name, other))      # copy inside the repository while the source stream is open
+            touched.add(other)
+        elif r < 0.40:
             k = rng.choice([0, 1, 1, 2, 3, 5])
             ds = []
             for _ in range(k):
@@ -24,7 +32,8 @@ def gen_repo_history(rng, n):
                     day[name] = max(0, day[name] - rng.randrange(1, 20))
                 ds.append(day[name])
             ops.append('a:%s:%s' % (name, ','.join(map(str, ds))))
-        elif r < 0.55:
+            touched.add(name)
+        elif r < 0.58:
             ops.append('g:%s' % name)
         elif r < 0.75:
             ops.append('s:%s:%d' % (name, max(0, day[name] + rng.randrange(-12 if backfill else -6, 3))))
@@ -47,6 +56,15 @@ def py_repo(ops):
                 serial += 1
                 lst.append((d, serial))
             out.append('ok')
+        elif f[0] == 'z':
+            store.setdefault(f[1], [])
+            out.append('ok')
+        elif f[0] == 'c':
+            if f[1] not in store:
+                out.append('err')
+            else:
+                store.setdefault(f[2], []).extend(list(store[f[1]]))
+                out.append('ok')
         elif f[0] == 'g':
             out.append('err' if f[1] not in store else 'ok:' + ','.join('%d.%d' % x for x in store[f[1]]))
         elif f[0] == 's':
@@ -71,8 +89,8 @@ def check_c10(res, tier, replay):
         rep = json.load(open(replay))
         hist = [(c['impl'], c['ops']) for c in rep.get('cases', [])]
     else:
-        for impl in ('mem', 'fs', 'sql'):
-            for _ in range(nh):
+        for impl in ('mem', 'fs', 'sql', 'fsw'):     # fsw: the file-system repository in a process whose local zone is west of UTC
+            for _ in range(nh if impl != 'fsw' else max(10, nh // 4)):
                 hist.append((impl, gen_repo_history(rng, rng.randrange(1, hl))))
     lines = ['r%d REPO %s %s' % (i, impl, ';'.join(ops)) for i, (impl, ops) in enumerate(hist)]
     go, model = vlib.run_go(lines), vlib.run_model(lines)
@@ -104,7 +122,7 @@ def check_c10(res, tier, replay):
                     break
             elif o != e:
                 # recorded finding: the SQL repository reads an asset that was never appended as an empty success
-                if impl == 'sql' and 'SQLRepository' in findings and e == 'err' and o == 'ok:' and ops[j][0] in 'gs':
+                if impl == 'sql' and 'SQLRepository' in findings and e == 'err' and ((o == 'ok:' and ops[j][0] in 'gs') or (o == 'ok' and ops[j][0] == 'c')):
                     known['SQLRepository'] += 1
                     continue
                 problem = (j, ops[j], e, o)
@@ -243,12 +261,15 @@ def check_c11(res, tier, replay):
 
 
 # ------------------------------------------------------------------------------------------ C12
-def gen_store(rng, names, allow_missing=True):
+def gen_store(rng, names, allow_missing=True, zero_byte=False):
     parts = []
     for n in names:
         if allow_missing and rng.random() < 0.2:
             continue
         k = rng.choice([0, 1, 2, 4, 8])
+        if zero_byte and k == 0 and rng.random() < 0.6:
+            parts.append('%s:z' % n)      # registered without content: a zero-byte file in a file-system target
+            continue
         d, ds = rng.randrange(0, 20), []
         for _ in range(k):
             d += rng.choice([1, 1, 2, 5])
@@ -268,7 +289,7 @@ def py_sync(defday, assets, fail_src, fail_tgt, runs, src_spec, tgt_spec):
         for part in spec.split(';'):
             n, ds = part.split(':')
             lst = []
-            for d in (ds.split(',') if ds else []):
+            for d in (ds.split(',') if ds and ds != 'z' else []):
                 serial += 1
                 lst.append((int(d), serial))
             out[n] = lst
@@ -308,7 +329,13 @@ def check_c12(res, tier, replay):
             fs = '-' if rng.random() < 0.7 else ','.join(rng.sample(names, rng.randrange(1, 3)))
             ft = '-' if rng.random() < 0.7 else ','.join(rng.sample(names, rng.randrange(1, 3)))
             impl = rng.choice(['mem', 'mem', 'fs', 'memtz'])     # memtz: local midnights in a daylight-saving zone (in-memory only)
-            cases.append((workers, rng.randrange(0, 30), assets, fs, ft, impl, rng.choice([1, 2, 2, 3]), gen_store(rng, names), gen_store(rng, names)))
+            src_spec, tgt_spec = gen_store(rng, names), gen_store(rng, names, zero_byte=True)
+            if impl == 'fs' and rng.random() < 0.5 and src_spec != '-':
+                # an asset the source has data for, present in the target as a zero-byte file
+                zn = rng.choice([p.split(':')[0] for p in src_spec.split(';')])
+                parts = [p for p in (tgt_spec.split(';') if tgt_spec != '-' else []) if p.split(':')[0] != zn] + [zn + ':z']
+                tgt_spec = ';'.join(sorted(parts))
+            cases.append((workers, rng.randrange(0, 30), assets, fs, ft, impl, rng.choice([1, 2, 2, 3]), src_spec, tgt_spec))
     lines = ['y%d SYNC %s' % (i, ' '.join(map(str, c))) for i, c in enumerate(cases)]
     go, model = vlib.run_go(lines), vlib.run_model(lines)
     # the same cases under the race detector (-race build of the harness)
